@@ -35,7 +35,7 @@
 From Coq Require Import List Bool Arith String ZArith.
 Import ListNotations.
 Require Import MV.Model.Orch MV.Model.OrchCheck MV.Model.Options MV.Model.Identity MV.Model.Grouping MV.Model.PlannerA.
-Require Import MV.Spec.GroupingSpec.
+Require Import MV.Spec.OptionsSpec MV.Spec.GroupingSpec.
 Open Scope string_scope.
 Open Scope list_scope.
 Open Scope nat_scope.
@@ -235,6 +235,28 @@ Definition plain_in (i : oin) : bool := is_nil (og (oi_opt i)) && is_nil (oc (oi
 Definition plain_req (r : oreq) : bool := is_nil (og (rq_opt r)) && is_nil (oc (rq_opt r)) && is_nil (opk (rq_opt r))
                                           && match rq_ty r with None => true | Some _ => false end.
 
+(* ---------- decidable forms of the hypotheses on requests (Spec/PlannerOSpec.v odefs_ok, decl_ok, one_cfw) ---------- *)
+Fixpoint nodup_str (l : list string) : bool :=
+  match l with [] => true | x :: t => negb (existsb (String.eqb x) t) && nodup_str t end.
+Fixpoint spos (x : string) (l : list string) : option nat :=
+  match l with [] => None | y :: t => if String.eqb x y then Some 0 else option_map S (spos x t) end.
+Definition defined (defs : list odef) (x : string) : bool := match odef_of defs x with Some _ => true | None => false end.
+(* the definitions are listed in a topological order: every input is defined EARLIER in the list *)
+Definition odefs_okb (defs : list odef) (rq : list oreq) : bool :=
+  let names := map od_name defs in
+  nodup_str names
+  && forallb (fun d => nodup_str (map oi_name (od_ins d))) defs
+  && forallb (fun d => forallb (fun i => defined defs (oi_name i)) (od_ins d)) defs
+  && forallb (fun r => defined defs (rq_name r)) rq
+  && forallb (fun d => forallb (fun i => match spos (oi_name i) names, spos (od_name d) names with
+                                         | Some a, Some b => Nat.ltb a b | _, _ => false end) (od_ins d)) defs.
+Definition refl_dictb (d : dict) : bool := nodupkb (dkeys d) && forallb (fun kv => py_eq (snd kv) (snd kv)) d.
+Definition ogoodb (s : ostate) : bool := refl_dictb (og s) && refl_dictb (oc s).
+Definition decl_okb (defs : list odef) (rq : list oreq) : bool :=
+  forallb (fun d => forallb (fun i => ogoodb (oi_opt i)) (od_ins d)) defs && forallb (fun r => ogoodb (rq_opt r)) rq.
+Definition one_cfwb (defs : list odef) : bool :=
+  match defs with [] => true | d0 :: _ => forallb (fun d => Nat.eqb (od_cfw d) (od_cfw d0)) defs end.
+
 (* =====================================================================================================================
    checkers for the correspondence harness (harness/planner_o.py)
    ===================================================================================================================== *)
@@ -316,3 +338,5 @@ Definition model_accept_iff_wf_O (c : ocase) : bool :=
   early c || Bool.eqb (Nat.eqb (outcome_code (prepare_O (ord_obs (oc_ord0 c)) (og_of c))) 0)
                       (wf_plan_auto (plan_O (ord_obs (oc_ord0 c)) (og_of c))).
 Definition model_plain_O (c : ocase) : bool := forallb (fun d => forallb plain_in (od_ins d)) (oc_defs c) && forallb plain_req (oc_req c).
+(* the hypotheses of the request-level theorems hold for the observed request *)
+Definition model_hyps_O (c : ocase) : bool := odefs_okb (oc_defs c) (oc_req c) && decl_okb (oc_defs c) (oc_req c) && one_cfwb (oc_defs c).
